@@ -5,6 +5,7 @@ results for a *symbolic* f mean equal results for every f."""
 from fractions import Fraction as Fr
 
 from ..srcmodel import AnalysisError
+from ..stages import estimates
 from ..algebra import Poly
 from ..ndarr import Arr, InterpRaise
 from ..pipeline import Pipeline
@@ -17,7 +18,7 @@ def first_half(P, obj, x):
     I = P.interp
     n_before = len(P.calls)
     P.set_point(x)
-    (res, fxi) = I.getattr(obj, '_derivative')(x, (), {})
+    (res, fxi) = estimates(I, obj, x)
     rich = obj.attrs.get('richardson')
     rp = tuple((k, repr(rich.attrs.get(k))) for k in ('step_ratio', 'step', 'order', 'num_terms')) if rich is not None else None
     calls = tuple(repr(c[0]) for c in P.calls[n_before:])
@@ -79,7 +80,7 @@ def setter_scenarios(cls='Derivative', dim=None, tier='quick'):
             gen = P.sym_generator('Min', num_extrap=1)
             obj, x = P.build(cls, m1, o1, n=n1, step=gen, dim=dim)
             I = P.interp
-            I.getattr(obj, '_derivative')(x, (), {})
+            estimates(I, obj, x)
             for attr, val in ops:
                 I.setattr(obj, attr, val)
                 if attr == 'call':
@@ -153,10 +154,10 @@ def sequence_scenarios(cls='Derivative', dim=None, tier='quick', seed=0):
                 gen = P.sym_generator('Min', num_extrap=1)
                 obj, x = P.build(cls, m0, o0, n=n0, step=gen, dim=dim)
                 I = P.interp
-                I.getattr(obj, '_derivative')(x, (), {})
+                estimates(I, obj, x)
                 for a, v in q:
                     I.setattr(obj, a, v)
-                    I.getattr(obj, '_derivative')(x, (), {})
+                    estimates(I, obj, x)
                 return obj, x
 
             def fresh(P, cfg=dict(cfg)):
@@ -186,7 +187,7 @@ def other_point_scenarios(cls='Derivative', dim=None):
             else:
                 y = Arr((dim,), [Poly.sym('y%d' % k) for k in range(dim)])
             P.set_point(y)
-            P.interp.getattr(obj, '_derivative')(y, (), {})
+            estimates(P.interp, obj, y)
             return obj, x
 
         def fresh(P):
@@ -223,7 +224,7 @@ def aborted_call_scenarios(cls='Derivative', dim=None):
                 return orig(*a, **k)
             obj.attrs['fun'] = bomb
             try:
-                I.getattr(obj, '_derivative')(x, (), {})
+                estimates(I, obj, x)
             except InterpRaise:
                 pass
             obj.attrs['fun'] = orig
@@ -259,7 +260,7 @@ def shared_generator_scenarios():
             gen = cref(**kw)
             m1, n1, o1 = first
             obj1, x = P.build('Derivative', m1, o1, n=n1, step=gen)
-            I.getattr(obj1, '_derivative')(x, (), {})
+            estimates(I, obj1, x)
             m2, n2, o2 = second
             obj2, x = P.build('Derivative', m2, o2, n=n2, step=gen)
             return obj2, x
@@ -295,7 +296,7 @@ def cache_scenarios(cls='Derivative', dim=None):
             (m1, n1, o1, r1), (m2, n2, o2, r2) = first, second
             g1 = P.sym_generator('Min', ratio=r1, num_extrap=1)
             obj1, x = P.build(cls, m1, o1, n=n1 if cls == 'Derivative' else None, step=g1, dim=dim)
-            I.getattr(obj1, '_derivative')(x, (), {})
+            estimates(I, obj1, x)
             g2 = P.sym_generator('Min', ratio=r2, num_extrap=1)
             return P.build(cls, m2, o2, n=n2 if cls == 'Derivative' else None, step=g2, dim=dim)
 
